@@ -117,9 +117,6 @@ func (p *packetizer) GeneratePadding(samples uint32) []*Packet {
 	packets := make([]*Packet, samples)
 
 	for i := 0; i < int(samples); i++ {
-		pp := make([]byte, 255)
-		pp[254] = 255
-
 		packets[i] = &Packet{
 			Header: Header{
 				Version:        2,
@@ -132,7 +129,8 @@ func (p *packetizer) GeneratePadding(samples uint32) []*Packet {
 				SSRC:           p.SSRC,
 				CSRC:           []uint32{},
 			},
-			Payload: pp,
+			// padding-only packet: 254 zero octets and the padding count
+			PaddingSize: 255,
 		}
 	}
 
